@@ -500,6 +500,14 @@ fn o_sb_into_vec(o: &Ops) -> Result<Vec<u8>, String> {
     let b = dryoc::dryocsecretbox::VecBox::encrypt_to_vecbox(&o.msg, &S24::from(&o.nonce), &S32::from(&o.key));
     Ok(b.into_vec())
 }
+fn o_sb_into_vec_spare(o: &Ops) -> Result<Vec<u8>, String> {
+    // the same box, its ciphertext held in a Vec with room to spare (as a decoded or reused buffer has)
+    let b = dryoc::dryocsecretbox::VecBox::encrypt_to_vecbox(&o.msg, &S24::from(&o.nonce), &S32::from(&o.key));
+    let (tag, data) = b.into_parts();
+    let mut roomy = Vec::with_capacity(data.len() + 16 + (o.msg.len() % 48)); roomy.extend_from_slice(&data);
+    let b: dryoc::dryocsecretbox::VecBox = DryocSecretBox::from_parts(tag, roomy);
+    Ok(b.into_vec())
+}
 fn o_sb_from_bytes(o: &Ops, w: &[u8]) -> Opened {
     match dryoc::dryocsecretbox::VecBox::from_bytes(w) {
         Ok(b) => obj::<Vec<u8>>(b.decrypt_to_vec(&S24::from(&o.nonce), &S32::from(&o.key))),
@@ -562,7 +570,7 @@ pub fn enc_impls(cons: &str, v: &str) -> Vec<(&'static str, EncFn)> {
         ("secretbox", "easy_inplace") => vec![("dryoc crypto_secretbox_easy_inplace", d_sb_easy_inplace)],
         ("secretbox", "obj_to_bytes") => vec![("DryocSecretBox<Stack,Vec>::encrypt+to_bytes", stackvec::sb_to_bytes), ("DryocSecretBox<[u8],Vec>::encrypt+to_bytes", arrvec::sb_to_bytes),
                                              ("DryocSecretBox<Stack,Vec>::encrypt+to_vec", stackvec::sb_to_vec)],
-        ("secretbox", "obj_into_vec") => vec![("VecBox::encrypt_to_vecbox+into_vec", o_sb_into_vec)],
+        ("secretbox", "obj_into_vec") => vec![("VecBox::encrypt_to_vecbox+into_vec", o_sb_into_vec), ("VecBox::from_parts(roomy Vec)+into_vec", o_sb_into_vec_spare)],
         ("secretbox", "obj_parts") => vec![("DryocSecretBox<Stack,Vec>::encrypt+into_parts", stackvec::sb_parts), ("DryocSecretBox<[u8],Vec>::encrypt+into_parts", arrvec::sb_parts)],
         ("box", "easy") => vec![("dryoc crypto_box_easy", d_box_easy), ("sodium crypto_box_easy", so_box_easy), ("sodium crypto_box_easy_afternm", so_box_easy_afternm)],
         ("box", "detached") => vec![("dryoc crypto_box_detached", d_box_detached), ("dryoc crypto_box_detached_inplace", d_box_detached_inplace),
